@@ -331,6 +331,19 @@ func init() {
 			return hex.EncodeToString([]byte(font.PostScriptName()))
 		}))
 	}
+	ops["gnames.pschars"] = func(f Fields) string {
+		font := gnPsFont(f)
+		return canonPanic(guard(func() string {
+			name := font.PostScriptName()
+			for i := 0; i < len(name); i++ {
+				ch := name[i]
+				if ch < 33 || ch > 126 || strings.IndexByte("[](){}<>/%", ch) >= 0 {
+					return fmt.Sprintf("bad-char:%02x@%d:%s", ch, i, hex.EncodeToString([]byte(name)))
+				}
+			}
+			return "ok"
+		}))
+	}
 	yes := func(f Fields) string { return "yes" }
 	ops["gnames.complete"] = yes
 	ops["gnames.unique"] = yes
@@ -669,18 +682,73 @@ func gnPsCase(c *Ctx) {
 			fam[i] = b // hex transport: no separator problem
 		}
 	}
-	font := &sfnt.Font{FamilyName: string(fam), Width: os2.Width(Pick(r, []int{0, 1, 3, 5, 5, 7, 9, 12})),
-		Weight: os2.Weight(Pick(r, []int{0, 100, 250, 400, 400, 700, 900, 1000, 333})),
-		IsBold: r.Chance(1, 3), IsItalic: r.Chance(1, 3), IsOblique: r.Chance(1, 4)}
+	// Width 0..12 (1..9 are the named classes, 5 = Normal, 0 and 10..12 print as "Width(n)"
+	// unless 0), Weight 0..1100, every combination of the style flags
+	width := r.Range(0, 12)
+	if r.Chance(1, 4) {
+		width = Pick(r, []int{0, 5, 10, 11, 12})
+	}
+	weight := Pick(r, []int{0, 1, 100, 149, 150, 250, 333, 400, 400, 449, 450, 500, 600, 700, 800, 900, 1000, 1100, r.Range(0, 1100)})
+	if r.Chance(1, 6) {
+		// the weight word already occurs in the family name: Subfamily() must not repeat it
+		tag := os2.Weight(weight).SimpleString()
+		fam = append(append([]byte("My "), tag...), " Face"...)
+		c.Stat("psname-family", "contains-weight-word")
+	}
+	flags := r.Intn(8)
+	font := &sfnt.Font{FamilyName: string(fam), Width: os2.Width(width), Weight: os2.Weight(weight),
+		IsBold: flags&1 != 0, IsItalic: flags&2 != 0, IsOblique: flags&4 != 0}
 	sub := guard(func() string { return font.Subfamily() })
 	if strings.HasPrefix(sub, "panic:") {
 		c.Stat("psname-subfamily", "panic")
 		return
 	}
+	// branches of Subfamily()
+	switch {
+	case width == 0:
+		c.Stat("subfamily-width", "zero")
+	case width == 5:
+		c.Stat("subfamily-width", "normal")
+	case width >= 1 && width <= 9:
+		c.Stat("subfamily-width", "named-class")
+	default:
+		c.Stat("subfamily-width", "outside-1..9")
+	}
+	switch {
+	case weight != 0 && weight != 400 && strings.Contains(string(fam), os2.Weight(weight).SimpleString()):
+		c.Stat("subfamily-weight", "word-already-in-family")
+	case weight != 0 && weight != 400:
+		c.Stat("subfamily-weight", "word-added")
+	case font.IsBold:
+		c.Stat("subfamily-weight", "normal-or-zero+IsBold")
+	default:
+		c.Stat("subfamily-weight", "normal-or-zero")
+	}
+	switch {
+	case font.IsOblique:
+		c.Stat("subfamily-slant", "oblique")
+	case font.IsItalic:
+		c.Stat("subfamily-slant", "italic")
+	default:
+		c.Stat("subfamily-slant", "upright")
+	}
+	if sub == "Regular" {
+		c.Stat("subfamily-result", "Regular")
+	} else {
+		c.Stat("subfamily-result", "words")
+	}
 	b2i := map[bool]int{true: 1}
-	line := fmt.Sprintf("family=%s sub=%s width=%d weight=%d bold=%d italic=%d oblique=%d", hex.EncodeToString(fam),
-		hex.EncodeToString([]byte(sub)), int(font.Width), int(font.Weight), b2i[font.IsBold], b2i[font.IsItalic], b2i[font.IsOblique])
-	c.Case(Verdict, "gnames.psname", line, len(fam) > 0)
+	style := fmt.Sprintf("width=%d weight=%d bold=%d italic=%d oblique=%d", width, weight, b2i[font.IsBold], b2i[font.IsItalic], b2i[font.IsOblique])
+	c.Case(Verdict, "gnames.psname", fmt.Sprintf("family=%s sub=%s ", hex.EncodeToString(fam), hex.EncodeToString([]byte(sub)))+style, len(fam) > 0)
+	// direct predicate on the real PostScriptName(): only characters allowed in a PostScript name
+	c.Case(Direct, "gnames.pschars", "family="+hex.EncodeToString(fam)+" "+style, len(fam) > 0)
+}
+
+// gnPsFont builds the font of a psname/pschars case line.
+func gnPsFont(f Fields) *sfnt.Font {
+	return &sfnt.Font{FamilyName: string(mustHex(f["family"])), Width: os2.Width(f.Int("width")),
+		Weight: os2.Weight(f.Int("weight")), IsBold: f["bold"] == "1", IsItalic: f["italic"] == "1",
+		IsOblique: f["oblique"] == "1"}
 }
 
 func areaGNames(c *Ctx) {
